@@ -2,6 +2,7 @@ package main
 
 import (
 	"fmt"
+	"go/constant"
 	"go/token"
 	"go/types"
 	"strings"
@@ -272,9 +273,11 @@ func runC11(c *Ctx) {
 					if call, ok := rv.V.(*ssa.Call); ok && staticCallee(&call.Call) == Len {
 						return "LEN"
 					}
-					if ex, ok := rv.V.(*ssa.Extract); ok && ex.Index == 2 {
-						if call, ok := ex.Tuple.(*ssa.Call); ok && staticCallee(&call.Call) == next {
-							return "VALID"
+					if ex, ok := rv.V.(*ssa.Extract); ok {
+						if bt, isB := ex.Type().Underlying().(*types.Basic); isB && bt.Kind() == types.Bool {
+							if call, ok := ex.Tuple.(*ssa.Call); ok && staticCallee(&call.Call) == next {
+								return "VALID"
+							}
 						}
 					}
 					return ""
@@ -541,10 +544,38 @@ func queueNextRepr(c *Ctx, rule string) {
 			c.Scen++
 			for i := range e.Paths {
 				p := &e.Paths[i]
-				if len(p.Rets) != 3 {
+				rets := p.Rets
+				// (item, count, valid), or the item and its count packed in a small struct: (entry{item, count}, valid)
+				if len(rets) == 2 {
+					flds, ok := structRetFields(p, rets[0])
+					if kc, isC := rets[0].V.(*ssa.Const); isC && kc.Value == nil {
+						if _, isS := kc.Type().Underlying().(*types.Struct); isS {
+							flds, ok = map[int]RV{}, true // the zero value
+						}
+					}
+					if ok {
+						var item, cnt RV
+						st := rets[0].V.Type().Underlying().(*types.Struct)
+						for k := 0; k < st.NumFields(); k++ {
+							if _, isI := st.Field(k).Type().Underlying().(*types.Interface); isI {
+								item = flds[k]
+							} else {
+								cnt = flds[k]
+							}
+						}
+						if item.V == nil {
+							item = RV{nil, ssa.NewConst(nil, types.NewInterfaceType(nil, nil))}
+						}
+						if cnt.V == nil {
+							cnt = RV{nil, ssa.NewConst(constant.MakeInt64(0), types.Typ[types.Uint32])}
+						}
+						rets = []RV{item, cnt, rets[1]}
+					}
+				}
+				if len(rets) != 3 {
 					continue
 				}
-				valid := retClass(p.Rets[2])
+				valid := retClass(rets[2])
 				if qlen == 0 {
 					nEmpty++
 					nw := 0
@@ -553,12 +584,12 @@ func queueNextRepr(c *Ctx, rule string) {
 							nw++
 						}
 					}
-					c.Check(valid == "const:false" && nw == 0 && retClass(p.Rets[0]) == "nil", rule, fnName(next), "empty queue => (nil,0,false), nothing written", P.Pos(next.Pos()), "path: "+p.String())
+					c.Check(valid == "const:false" && nw == 0 && retClass(rets[0]) == "nil", rule, fnName(next), "empty queue => (nil,0,false), nothing written", P.Pos(next.Pos()), "path: "+p.String())
 					continue
 				}
 				nAdv++
 				// item = queue[0]
-				item := p.Rets[0].V
+				item := rets[0].V
 				isHead := false
 				if u, ok := item.(*ssa.UnOp); ok && u.Op == token.MUL {
 					if ia, ok := u.X.(*ssa.IndexAddr); ok {
@@ -568,7 +599,7 @@ func queueNextRepr(c *Ctx, rule string) {
 					}
 				}
 				// count = coalesced[item], looked up before the key is forgotten
-				cnt, isLk := p.Rets[1].V.(*ssa.Lookup)
+				cnt, isLk := rets[1].V.(*ssa.Lookup)
 				cntOK := isLk && loadOfField(cnt.X, fCoal) && cnt.Index == item
 				if isLk && !cntOK {
 					// the key as resolved when the lookup ran (the item may be held in a named result)
@@ -688,4 +719,33 @@ func sameValue(a, b ssa.Value) bool {
 		}
 	}
 	return false
+}
+
+// structRetFields: the fields of a struct value returned by value (a composite literal of the analysed
+// function), as stored on the path: field index -> value.
+func structRetFields(p *Path, rv RV) (map[int]RV, bool) {
+	u, ok := rv.V.(*ssa.UnOp)
+	if !ok || u.Op != token.MUL {
+		return nil, false
+	}
+	al, ok := u.X.(*ssa.Alloc)
+	if !ok {
+		return nil, false
+	}
+	st, ok := deref(al.Type()).Underlying().(*types.Struct)
+	if !ok {
+		return nil, false
+	}
+	id := 0
+	if rv.F != nil {
+		id = rv.F.ID
+	}
+	key := fmt.Sprintf("%d:%p", id, al)
+	out := map[int]RV{}
+	for k := 0; k < st.NumFields(); k++ {
+		if v, ok := p.Mem[fmt.Sprintf("%s.%d", key, k)]; ok {
+			out[k] = v
+		}
+	}
+	return out, true
 }
